@@ -38,6 +38,12 @@ func (v *VMValue) ToJSONRaw(save map[*VMValue]bool) ([]byte, error) {
 			if save == nil {
 				save = map[*VMValue]bool{}
 			}
+			// 属性里可以放着这个计算值自己(&a.x = &a)，和数组/字典一样检测环
+			if _, exists := save[v]; exists {
+				return nil, errors.New("值错误: 序列化时检测到循环引用")
+			}
+			save[v] = true
+			defer delete(save, v)
 			attrJson, err := cd.Attrs.toJSONRaw(save)
 			if err != nil {
 				return nil, err
